@@ -17,6 +17,7 @@ import AcnProofs.Lemmas.SortedRR
 import AcnProofs.Lemmas.SortedPre
 import AcnProofs.Lemmas.SortedSim
 import AcnProofs.Lemmas.SortedSimRun
+import AcnProofs.Lemmas.SortedSimInd
 
 set_option linter.unusedSectionVars false
 
@@ -348,13 +349,22 @@ theorem schedule_feasible [HasCeilNat K] (feas : List K → Bool) (cfg : Config 
    Also proved (`sim_period_composition`, below): with the modelled algorithm as `Sim` scheduler
    (`AcnModel/SimSorted.lean`) the column applied in a period IS the algorithm's array, and that
    array is feasible; other columns and the matrix shape are untouched.
+   Also proved at RUN level (`sim_consequences_of_schedSafe`, below): for ANY scheduler with the
+   per-call guarantees `SchedSafe`, by induction over `Sim.run` on top of C02's ledger invariant
+   (`Ledger.Inv`, `body_ledger`), C04's `submit_get` and sim-core's projection lemmas: no `InvalidRate`
+   at any loop head, and `delivered ≤ requested` + battery invariant for every EV record at every
+   loop head.  The link lemmas `resolve_spec`, `preprocess_derived` (identity fields and bounds
+   through preprocessing), `scheduleCall_grants` (`GrantOk` for every queued session, 0 elsewhere, both
+   algorithms), `occupant_station`, `active_is_occupant` are proved (`Lemmas/SortedLink.lean`,
+   `SortedSimInd.lean`).
    NOT proved — exactly what is missing for the full statement:
-     (a) the link lemmas that discharge the hypotheses `Accepts …` / `pilot ≤ rapEv …` of the two
-         period theorems from `pilot_accepted_*` / `le_remaining_*` / `zero_for_inactive_*`: a queued
-         session at index k is the adapter's image of the occupant of station k, and preprocessing
-         keeps `idx`, `requested`, `delivered` and establishes `0 ≤ max_rate ≤ max_pilot`;
-     (b) the induction over `Sim.run`: C01 `Inv` at the state between `eventsStage` and `applyStage`
-         (distinct occupants), plus preservation of the matrix shape and of `LedgerOk` by `body`;
+     (a) `SchedSafe cfg inf (SimSorted.sortedSched …)`: the final assembly of the link lemmas — that
+         the queue of a reachable view has distinct valid station indices (active EVs sit on distinct
+         stations; `resolve` and preprocessing keep that) and the case analysis turning `GrantOk` +
+         `Derived` into `Accepts …` and `0 ≤ pilot ≤ rapEv …` per EVSE class; its `err` half is
+         `sortedSched_no_invalidRate`;
+     (b) "every applied column passes the feasibility predicate" at run level (per period it is
+         `sim_period_composition`; a period without scheduler call applies zeros);
      (c) the rampdown estimator (stateful across calls; `Sim`'s scheduler parameter is a pure
          function of the view, so the adapter covers `estimate_max_rate = False`).
    The composition is nevertheless TIED TO THE CODE: the C07/C08 checks run every generated whole
@@ -502,6 +512,70 @@ theorem sim_period_composition [HasCeilNat K] [HasExp K] (net : SimSorted.NetInf
         obtain ⟨h1, h2, h3⟩ := update_with_array (SimSorted.infraOf inf cfg) hids hne sch hl
           s.pilots m hwf s.core.iter _ hup
         exact ⟨sch, hfe, hl, h1, h2, h3⟩
+
+/-- `sim_consequences`, run level, for ANY scheduler with the per-call guarantees `SchedSafe`
+    (never raises `InvalidRate` itself; answers with the dict of an array whose entry for each
+    station has the accepted shape and lies within `[0, remaining demand of the occupant]`):
+    on a well-formed configuration (`CfgOk`: distinct stations, continuous-from-zero / finite-rate
+    EVSEs, positive voltages and period, distinct session ids) and for EVERY fuel `n` — i.e. at
+    every loop head of `Simulator.run` — the run has raised no `InvalidRate`, and if it has not
+    aborted every EV record has `delivered ≤ requested` and the battery invariant.  (Both
+    scheduling branches of the loop are covered: a period without scheduler call applies zeros.) -/
+theorem sim_consequences_of_schedSafe (cfg : Sim.Cfg ℝ) (inf : ℝ) (hc : CfgOk cfg inf)
+    (sched : Sim.View ℝ → Except EventCore.Err (Sim.Schedule ℝ)) (hs : SchedSafe cfg inf sched)
+    (hb : ∀ e ∈ cfg.evs, BattAlg.Inv e.batt ∧ e.delivered ≤ e.requested) (n : Nat) :
+    (Sim.run cfg sched n (Sim.init cfg)).2 ≠ some .invalidRate ∧
+    ((Sim.run cfg sched n (Sim.init cfg)).2 = none →
+      ∀ e ∈ (Sim.run cfg sched n (Sim.init cfg)).1.evs,
+        e.delivered ≤ e.requested ∧ BattAlg.Inv e.batt) := by
+  obtain ⟨h1, h2⟩ := run_safe cfg inf hc sched hs n (Sim.init cfg) (init_sinv cfg hb)
+  exact ⟨h1, fun h e he => ⟨((h2 h).evs e he).1.2, ((h2 h).evs e he).1.1⟩⟩
+
+/-- the scheduler side of `SchedSafe` that IS proved for the modelled sorted algorithms: they never
+    raise `InvalidRate` themselves (`KeyError` / `ValueError` only) -/
+theorem sortedSched_no_invalidRate [HasCeilNat ℝ] (net : SimSorted.NetInfo ℝ) (inf : ℝ)
+    (cfg : Sim.Cfg ℝ) (scfg : Config ℝ) (v : Sim.View ℝ) (e : EventCore.Err)
+    (h : SimSorted.sortedSched net inf cfg scfg v = .error e) : e ≠ .invalidRate := by
+  unfold SimSorted.sortedSched at h
+  simp only at h
+  split at h
+  · rename_i e' _
+    cases h
+    cases e' <;> simp [SimSorted.errOf]
+  · cases h
+
+/-- `SchedSafe` is satisfiable: the scheduler that answers with the all-zero array (what
+    `zero_for_inactive_*` gives every vacant station) has the per-call guarantees, so the run-level
+    theorem applies to it -/
+theorem zero_sched_safe (cfg : Sim.Cfg ℝ) (inf : ℝ) (hc : CfgOk cfg inf) :
+    SchedSafe cfg inf (fun _ => .ok (formatArraySchedule (SimSorted.infraOf inf cfg)
+      (List.replicate cfg.stations.length 0))) := by
+  constructor
+  · intro v e h
+    simp at h
+  intro a _ hev sch hsch
+  simp only [Except.ok.injEq] at hsch
+  subst hsch
+  refine ⟨List.replicate cfg.stations.length 0, rfl, by simp, ?_, ?_⟩
+  · intro k st hk
+    have hk' : k < cfg.stations.length := (List.getElem?_eq_some_iff.mp hk).1
+    have : (List.replicate cfg.stations.length (0 : ℝ)).getD k 0 = 0 := by
+      rw [List.getD_eq_getElem?_getD, List.getElem?_replicate]
+      split <;> rfl
+    rw [this]
+    exact accepts_zero inf st.kind (hc.kinds st (List.mem_of_getElem? hk))
+  · intro k st e hk he
+    have : (List.replicate cfg.stations.length (0 : ℝ)).getD k 0 = 0 := by
+      rw [List.getD_eq_getElem?_getD, List.getElem?_replicate]
+      split <;> rfl
+    rw [this]
+    have hmem : e ∈ a.evs := by
+      unfold Sim.occupantEv at he
+      split at he
+      · exact List.mem_of_find?_eq_some he
+      · cases he
+    exact ⟨le_refl _, rapEv_nonneg cfg st e (hc.volt st (List.mem_of_getElem? hk)) hc.per
+      (hev e hmem).1.2⟩
 
 /-! ### non-vacuity: concrete instances over ℚ on which the hypotheses hold and the algorithms run -/
 
